@@ -26,9 +26,13 @@ val coq_E533 : code
 
 val prim_void : coq_N
 
+val prim_i32 : coq_N
+
 val prim_u8 : coq_N
 
 val prim_char8 : coq_N
+
+val prim_bool : coq_N
 
 type mty =
 | MPrim of coq_N
